@@ -1,0 +1,7 @@
+//go:build !verif
+
+package store
+
+// simYield is a scheduling point for deterministic simulation.
+// It compiles to nothing unless the `verif` build tag is set.
+func simYield(string) {}
